@@ -309,7 +309,12 @@ class Mailbox:
             #
             pass
 
-        if self.name in self.server.active_mailboxes:
+        # NOTE: only our own entry. A mailbox that was deleted and created
+        #       again is a new object under the same name: when the old one is
+        #       finally collected it must not take the new one out of the
+        #       table (the new one would be instantiated a second time).
+        #
+        if self.server.active_mailboxes.get(self.name) is self:
             del self.server.active_mailboxes[self.name]
 
     ####################################################################
